@@ -36,7 +36,8 @@ RULE = (
     "count variable incl. one literally named num, context strings, trimmed / notrimmed modifiers and the ext.i18n.trimmed "
     "policy; direct _ / gettext / ngettext / pgettext / npgettext calls with constant and non-constant messages) over text "
     "fragments with %, %s, %(x)s, braces, markup, blanks and line breaks; each case is rendered with recording identity "
-    "translations in old and new gettext style x autoescape off/on, under default or alternative delimiters and "
+    "translations in old and new gettext style x autoescape off/on, items optionally inside {% autoescape %} blocks with a "
+    "constant or context-computed setting, under default or alternative delimiters and "
     "trim_blocks, and extracted with extract_from_ast and babel_extract. Non-trivial = an item whose text has a literal % or brace, or a plural, or a "
     "context string, or a declared-but-unreferenced variable; distinct = distinct serialised case."
 )
@@ -55,6 +56,8 @@ DELIMS = {
     "default": ("{%", "%}", "{{", "}}", "{#", "#}"),
     "alt": ("<%", "%>", "${", "}", "<#", "#>"),
 }
+# an item may sit in {% autoescape <expr> %}...{% endautoescape %}: constant or computed from the context variable "flag"
+AE_EXPR = {"true": "true", "false": "false", "flag": "flag", "notflag": "not flag"}
 NAME_POOL = ["num", "count", "user", "n", "x", "context", "name", "items"]
 RESERVED = {"trimmed", "notrimmed", "_", "gettext", "ngettext", "pgettext", "npgettext", "ident", "_trans"}
 
@@ -208,6 +211,10 @@ def build_source(case, newstyle):
 
     for item in case["items"]:
         first = lines_so_far()
+        if item.get("ae"):
+            if item["ae"] not in AE_EXPR:
+                raise core.Discard()
+            parts.append("%s autoescape %s %s" % (bs, AE_EXPR[item["ae"]], be))
         if item["t"] == "trans":
             head = ["trans"]
             if item["ctx"] is not None:
@@ -259,6 +266,8 @@ def build_source(case, newstyle):
                         kw = kw + ["num=%s" % _nexpr_src(item["n"])]
                     call += "|format(%s)" % ", ".join(kw)
             parts.append("%s %s %s" % (vs, call, ve))
+        if item.get("ae"):
+            parts.append("%s endautoescape %s" % (bs, be))
         last = lines_so_far()
         if not text_ok(item["after"], delims):
             raise core.Discard()
@@ -435,6 +444,18 @@ def ref_call(item, data, newstyle, autoescape):
 # the oracle
 
 
+def effective_autoescape(item, data, env_autoescape):
+    """docs/templates.rst 'Autoescape Overrides': inside {% autoescape x %} autoescaping is active iff x is true."""
+    ae = item.get("ae")
+    if not ae:
+        return env_autoescape
+    if ae in ("true", "false"):
+        return ae == "true"
+    if type(data.get("flag")) is not bool:
+        raise core.Discard()
+    return data["flag"] if ae == "flag" else not data["flag"]
+
+
 def _make_env(case, newstyle, autoescape, log):
     st = _setup()
     cfg = case["cfg"]
@@ -526,6 +547,9 @@ def check_case(case):
             texts = "".join(s["s"] for m in (item["msg"], item.get("plural") or {}) for s in m.get("segs", []) if "s" in s)
             if "%" in texts or "{" in texts or "}" in texts or item["fn"] in ("ngettext", "pgettext", "npgettext"):
                 nontrivial = True
+    for item in case["items"]:
+        if item.get("ae"):
+            labels.add("autoescape_block_%s_%s" % ("computed" if item["ae"] in ("flag", "notflag") else "constant", item["t"]))
     labels.add("delims_" + cfg["delims"])
     if cfg["trim_blocks"]:
         labels.add("trim_blocks")
@@ -539,12 +563,13 @@ def check_case(case):
         expected = [case["prefix"]]
         calls = []
         for item in case["items"]:
+            active = effective_autoescape(item, data, autoescape)
             if item["t"] == "trans":
-                text, call = ref_trans(item, data, cfg, autoescape)
+                text, call = ref_trans(item, data, cfg, active)
             else:
-                text, call = ref_call(item, data, newstyle, autoescape)
+                text, call = ref_call(item, data, newstyle, active)
             after = item["after"]
-            if cfg["trim_blocks"] and item["t"] == "trans" and after.startswith("\n"):
+            if cfg["trim_blocks"] and (item["t"] == "trans" or item.get("ae")) and after.startswith("\n"):
                 after = after[1:]
             expected.append(text)
             expected.append(after)
@@ -803,6 +828,11 @@ def make_case(tape_bytes):
         return item
 
     items = [trans_item() if t.chance(3, 4) else call_item() for _ in range(t.pick([1, 1, 2, 3]))]
+    for it in items:
+        ae = t.pick([None, None, None, None, "flag", "notflag", "true", "false"])
+        if ae:
+            it["ae"] = ae
+    data["flag"] = t.chance(1, 2)
     used = _used_names(items)
     data = {k: v for k, v in data.items() if k in used}  # keep replay files small: only names some item can read
     return {"cfg": cfg, "styles": ALL_STYLES, "prefix": text(0, 2), "items": items, "data": data}
@@ -811,6 +841,8 @@ def make_case(tape_bytes):
 def _used_names(items):
     used = set()
     for it in items:
+        if it.get("ae") in ("flag", "notflag"):
+            used.add("flag")
         if it["t"] == "trans":
             for name, e in it["decls"]:
                 used.add(e.get("n", name))
@@ -865,6 +897,7 @@ def floors(total, tier):
     need = {"trans_percent": 300, "trans_unreferenced_decl_percent": 50, "trans_plural": 300, "trans_plural_explicit": 50, "trans_context": 200,
             "trans_trimmed_linebreak": 100, "trans_var_num": 100, "trans_free_var": 200, "trans_first_decl_call": 30, "call_ngettext": 50,
             "call_npgettext": 20, "call_nonconstant": 30, "delims_alt": 200, "trim_blocks": 200, "policy_trimmed": 200,
-            "style_new_esc": 1000, "style_old_esc": 1000}
+            "style_new_esc": 1000, "style_old_esc": 1000,
+            "autoescape_block_computed_trans": 1000, "autoescape_block_constant_trans": 1000, "autoescape_block_computed_call": 200}
     low = ["%s=%d<%d" % (k, lab.get(k, 0), v) for k, v in need.items() if lab.get(k, 0) < v]
     return ", ".join(low) or None
